@@ -9,6 +9,12 @@ SPEC = {
         'model_module': 'Model.C06_Handshake', 'imports': ['From Wesh Require Import Gen.Handshake.'],
         'shard': 200, 'timeout': 1200,
     }, {
+        'name': 'stall', 'pkg': './internal/handshake', 'test': 'TestVerifC06Stall',
+        'files': [('internal/handshake', 'harness/handshake/zz_verif_c06_test.go'),
+                  ('internal/handshake', 'harness/handshake/zz_verif_c06stall_test.go')],
+        'model_module': 'Model.C06_Handshake', 'imports': ['From Wesh Require Import Gen.Handshake.'],
+        'shard': 200, 'timeout': 600,
+    }, {
         'name': 'crm', 'pkg': '.', 'test': 'TestVerifC06CRM',
         'files': [('.', 'harness/root/zz_verif_meta_common_test.go'),
                   ('.', 'harness/root/zz_verif_c06crm_test.go')],
@@ -31,11 +37,15 @@ SPEC = {
             'of a hand-assembled contactRequestsManager over the real account-group MetadataStore, driven through an in-memory pipe by a scripted peer '
             'with real keys, 6 (80) rounds x 10 scenarios: honest request with / without rendezvous seed, card naming another account / the '
             'receiving account, short seed, key that is no key, no card, garbage, handshake towards another account, card without handshake; '
-            'observed: which key (if any) ends up recorded as a received request, with which metadata and seed',
+            'observed: which key (if any) ends up recorded as a received request, with which metadata and seed; '
+            'stall stream: both real roles over a pipe WITHOUT deadline, the honest opposite role behind a gate that lets its first n frames through '
+            '(n = 0 .. all) and then holds everything back with the stream open; every case is watched for 12 s (40 s thorough, all cases at once): '
+            'the role under test must not report success (the responder: a key or a nil error) unless the run was complete; still waiting or an error is '
+            'what the model says (requester_vs_stalling / responder_vs_stalling)',
     'trusted_base': [
         'Coq 8.16.1 kernel; vm_compute for evaluating the model on cases',
         'no axioms',
-        'translator gen/handshake.go (validation of the peer ephemeral key present in receivePeerEphemeralPubKey; order and guards of the steps of SendContactRequest and handleIncomingRequest)',
+        'translator gen/handshake.go (validation of the peer ephemeral key present in receivePeerEphemeralPubKey; order and guards of the steps of SendContactRequest and handleIncomingRequest; steps, guards and return statements of RequestUsingReaderWriter and ResponseUsingReaderWriter)',
         'harness/root/zz_verif_c06out_test.go (stub of the ipfs API handing out an in-memory pipe as the stream to the peer)',
         'harness/root/zz_verif_c06crm_test.go (hand-assembled contactRequestsManager; network.Stream stub over net.Pipe)',
         'harness/handshake/zz_verif_c06_test.go (scripted attacker with real keys; each attack is mapped by hand to the symbolic '
